@@ -17,6 +17,9 @@ use std::io::Read;
 
 #[derive(Debug)]
 struct Recorder {
+    /// how a rejection is reported (the library cannot know which of these a verifier uses: key not found, no
+    /// signature packet, ...)
+    reject_kind: usize,
     script: HashMap<Vec<u8>, (String, bool)>,
     log: RefCell<Vec<(String, String, bool)>>, // tag, data token, accepted
 }
@@ -29,7 +32,13 @@ impl Verifying for Recorder {
         let tok = hex(&Sha256::digest(&all));
         let (tag, accept) = self.script.get(signature).cloned().unwrap_or(("unknown".into(), false));
         self.log.borrow_mut().push((tag, tok, accept));
-        if accept { Ok(()) } else { Err(Error::NoSignatureFound) }
+        if accept { Ok(()) } else {
+            Err(match self.reject_kind % 3 {
+                0 => Error::NoSignatureFound,
+                1 => Error::KeyNotFoundError { key_ref: "0123456789abcdef".into() },
+                _ => std::io::Error::new(std::io::ErrorKind::Other, "verifier unavailable").into(),
+            })
+        }
     }
     fn algorithm(&self) -> AlgorithmType {
         AlgorithmType::RSA
@@ -120,7 +129,7 @@ fn run_case(t: &mut Tracer, c: &Value, car: &Carrier, idx: usize, perm: usize) {
         Ok(Err(_)) => { t.emit(json!({"event":"Return","case":idx,"result":"err","note":"parse error"})); return; }
         Err(m) => { t.emit(json!({"event":"Panic","case":idx,"msg":m})); return; }
     };
-    let rec = Recorder { script, log: RefCell::new(vec![]) };
+    let rec = Recorder { reject_kind: idx + perm, script, log: RefCell::new(vec![]) };
     let r = guarded(|| pkg.verify_signature(&rec));
     for (tag, tok, acc) in rec.log.borrow().iter() {
         t.emit(json!({"event":"Consult","case":idx,"tag":tag,"data":tok,"verdict": if *acc {"accept"} else {"reject"}}));
@@ -180,7 +189,12 @@ pub fn run(args: &Args) {
     for (i, k) in gen_::KEYS.iter().enumerate() {
         if args.thorough() || i % 2 == 0 { carriers.push((*k, true)); }
     }
-    for (key, big) in carriers {
+    // (compression of the carrier: none, except for two extra small carriers with a gzip and a zstd payload, whose
+    // container bytes - member header, frame header, trailer - are payload bytes like any other)
+    let mut carriers: Vec<(&str, bool, &str)> = carriers.into_iter().map(|(k, b)| (k, b, "none")).collect();
+    carriers.push(("ed25519", false, "gzip"));
+    carriers.push(("rsa4096", false, "zstd"));
+    for (key, big, comp) in carriers {
         let mut cfg = gen_::rand_cfg(&mut rng, 0, 0);
         let mut used = vec![];
         cfg.files = vec![gen_::rand_file(&mut rng, &mut used, 200)];
@@ -196,7 +210,7 @@ pub fn run(args: &Args) {
                 cfg.files.push(f);
             }
         }
-        cfg.compression = Some(("none".into(), None));
+        cfg.compression = Some((comp.into(), None));
         cfg.signer = Some(key.to_string());
         let pkg = match guarded(|| gen_::build(&cfg, &wd)) {
             Ok(Ok(p)) => p,
@@ -227,6 +241,20 @@ pub fn run(args: &Args) {
             e["event"] = json!("Tampered"); e["key"] = json!(key); e["what"] = json!(format!("flip bit {} of header+payload", bit));
             e["ep_start"] = json!(true);
             t.emit(e);
+        }
+        // every bit of the first 24 and the last 16 payload bytes (where a compressed stream keeps its container fields)
+        if comp != "none" {
+            let plen = base.len() - lay.payload_at;
+            let mut bits: Vec<usize> = (0..(24usize.min(plen)) * 8).collect();
+            bits.extend((plen.saturating_sub(16) * 8)..(plen * 8));
+            for bit in bits {
+                let mut m = base.clone();
+                m[lay.payload_at + bit / 8] ^= 1 << (bit % 8);
+                let mut e = verify_real(&m, &orig, key);
+                e["event"] = json!("Tampered"); e["key"] = json!(key); e["what"] = json!(format!("{comp} payload: flip bit {bit} of the payload"));
+                e["ep_start"] = json!(true);
+                t.emit(e);
+            }
         }
         // signature entries that hold no (valid) signature at all, the content untouched and every digest true: the
         // real verifier cannot have accepted anything, so verification must fail
